@@ -463,6 +463,17 @@ def lazyItems (rank : String) (body : S → Int → β → S × σ) :
     let t := lazyItems rank body r.1 (j + 1) rest
     (t.1, .use rank "iter" c j :: .sub r.2 :: .inc :: t.2)
 
+/-- `iterRangeShapeRef(0, shape)` (`tick=True`): every coordinate of the shape; `getPayloadRef(c)` calls
+    `addUse(rank, c, index, type_=None)` — never a row, but it sets the rank's entry of `point` —
+    and hands out the stored payload or a freshly created default -/
+def denseItems (rank : String) (dfl : π) (f : Fib Int π) (body : S → Int → π → S × σ) :
+    S → Nat → Nat → S × List (Item σ)
+  | s, _, 0 => (s, [])
+  | s, c, n + 1 =>
+    let r := body s c ((posLookup f (c : Int)).getD dfl)
+    let t := denseItems rank dfl f body r.1 (c + 1) n
+    (t.1, .use rank "" c (lowerBound f (c : Int)) :: .sub r.2 :: .inc :: t.2)
+
 /-! ### `z << src` consumed by `iterRange` -/
 
 structure PopCfg where
@@ -474,6 +485,7 @@ structure PopCfg where
   trW : Bool
   trB : Bool
   insertPos : Int          -- `a_fiber.getShape(all_ranks=False, authoritative=True)`
+  compressed : Bool := true  -- `compressed_output`: the DESTINATION rank's format is "C"
 
 structure PopSt (π : Type) where
   z : Fib Int π
@@ -514,7 +526,7 @@ def popPost (removed : Bool) (bc : Int) (wp : Int) : List (Item σ) :=
 /-- one element offered by the source: everything from `for b_pos, (b_coord, b_payload)` to `a_pos += 1`,
     with the consumer's `addUse … yield … incIter` in the middle -/
 def popYield (st : PopSt π) (bc : Int) (bp : β) : PopSt π × List (Item σ) :=
-  let inserting := if st.bpos = 0 then
+  let inserting := if cfg.compressed && decide (st.bpos = 0) then
       (match st.z.getLast? with | some e => decide (bc < e.1) | none => false) else st.inserting
   let nIns := st.toInsert.length
   let s := popSearch st.z st.apos bc
@@ -596,6 +608,7 @@ inductive SrcKind
   | and (x y : Nat)
   | lf (x y : Nat)
   | proj (x : Nat) (srcRank : String) (off : Int) (lo hi : Option Int) (ownLabel : Bool)
+  | dense (x : Nat) (shape : Nat)      -- `a.iterShapeRef()`: every coordinate of the shape, elements created
   deriving Repr
 
 structure Level where
@@ -603,6 +616,7 @@ structure Level where
   src : SrcKind
   pop : Bool
   insertPos : Int := 0
+  zU : Bool := false                   -- the destination rank is kept in format "U"
   deriving Repr
 
 structure Env where
@@ -650,12 +664,13 @@ def srcSteps (tr : Key → Bool) (dflt : Int) (rank : String) (l0 : Nat) (env : 
       (fun s => match s with
         | .emit i => .emit i
         | .yield c p => .yield c [(x, p)])
+  | .dense _ _ => []
 
 /-- the `PopCfg` of a level: destination label 0, source label 1 -/
 def popCfgOf (tr : Key → Bool) (lv : Level) : PopCfg :=
   { rank := lv.rank, readTy := "populate_read_0", writeTy := "populate_write_0", srcTy := "populate_1",
     trR := tr (lv.rank, "populate_read_0"), trW := tr (lv.rank, "populate_write_0"),
-    trB := tr (lv.rank, "populate_1"), insertPos := lv.insertPos }
+    trB := tr (lv.rank, "populate_1"), insertPos := lv.insertPos, compressed := !lv.zU }
 
 /-- one `for` of the nest: what its iterators call, given what the loop body does to the
     environment (returns the output subtree it leaves and its own nest) -/
@@ -673,6 +688,10 @@ def levelItems {σ : Type} (tr : Key → Bool) (dflt : Int) (lv : Level) (env : 
       iterItems lv.rank (anyEmpty dflt)
         (fun zc _ p => body { ops := bindOps env.ops [(x, p)], z := zc })
         env.z 0 (children (opAt env x))
+    | .dense x n =>
+      denseItems lv.rank (anyDefault dflt (depthBelow (opAt env x))) (children (opAt env x))
+        (fun zc _ p => body { ops := bindOps env.ops [(x, p)], z := zc })
+        env.z 0 n
     | src =>
       lazyItems lv.rank
         (fun zc _ bs => body { ops := bindOps env.ops bs, z := zc })
@@ -711,6 +730,7 @@ def opCoordAt (lv : Level) (x : Nat) (c : Int) : Option (Int × Bool) :=
   | .and a b => if a = x ∨ b = x then some (c, false) else none
   | .lf a b => if a = x then some (c, false) else if b = x then some (c, true) else none
   | .proj a _ off _ _ _ => if a = x then some (c - off, false) else none
+  | .dense a _ => if a = x then some (c, true) else none
 
 /-- follow the coordinates of the enclosing loops down operand `x` -/
 def navigate (dflt : Int) (x : Nat) : AnyTree → List Level → List Int → Option AnyTree
@@ -738,6 +758,7 @@ def specYields (dflt : Int) (getOp : Nat → Option AnyTree) : SrcKind → List 
       let c := oc + off
       if aboveHi hi c then none
       else if inLo lo c then some c else none)
+  | .dense _ n => (List.range n).map Int.ofNat
 
 /-- `pos` is the storage index of the non-empty element with coordinate `c` -/
 def storageOK (dflt : Int) (t : Option AnyTree) (c pos : Int) : Bool :=
@@ -795,6 +816,7 @@ def addrRowOK (dflt : Int) (literal : Bool) (levels : List Level) (ops : List An
       | .proj x _ _ _ _ own =>
         if ty = label (if own then 0 else l0) "project_" then conc x else false
       | .fiber _ => false
+      | .dense _ _ => false
   | _, _ => false
 
 def lineStamp (i : Nat) : Line → List Nat
